@@ -243,7 +243,7 @@ func (g *lexGen) comment() lex {
 	if g.kind == "expression" {
 		b.WriteString("/*")
 		for i := r.Intn(4); i > 0; i-- {
-			b.WriteString(mon.Pick(r, []string{"c", " ", "\n", "*", "/ ", "'", "\"", "é", "ш", "1", "x y"}))
+			b.WriteString(mon.Pick(r, []string{"c", " ", "\n", "*", "/ ", "'", "\"", "é", "ш", "1", "x y", "/", "\u042a/", "\u212a/", "\u222a/", "\uff0a/", "\u012a/", "**", "* ", "\u042f", "\u022f*", "//"}))
 		}
 		s := strings.ReplaceAll(b.String()[2:], "*/", "* /")
 		if strings.HasPrefix(s, "/") { // "/*/" is not a closed comment
